@@ -191,10 +191,25 @@ def build_model(timeout=900):
 def build_harness(timeout=1200):
     """cargo build the harness against the CURRENT working tree of /repo."""
     with Lock("cargo"):
+        try:
+            import tablegen
+            tablegen.gen_harness()      # rustc's view of the ABI tables (C19), regenerated from /repo/src
+        except Exception as ex:
+            raise Broken("tablegen (harness view of the ABI tables)", str(ex))
         rc, out = sh(["cargo", "build", "--release", "--offline", "--quiet"], timeout,
                      cwd=os.path.join(VERIF, "harness"))
         if rc != 0:
             raise Broken("harness build against /repo (cargo)", out[-4000:])
+
+
+def pre_setup():
+    """regenerate the translated tables before the first full build"""
+    import tablegen
+    try:
+        tablegen.gen_harness()
+        tablegen.generate()
+    except Exception as ex:
+        print("setup: tablegen:", ex)
 
 
 def repo_fingerprint():
@@ -243,7 +258,7 @@ def _run_shard(binary, path, timeout):
     return results[:len(lines_in)]
 
 
-def run_both(cases, tag, timeout=None, per_shard_timeout=120):
+def run_both(cases, tag, timeout=None, per_shard_timeout=120, with_model=True):
     """Run the cases on the implementation harness and on the extracted model.
     Returns (impl_lines, model_lines)."""
     from concurrent.futures import ThreadPoolExecutor
@@ -257,6 +272,8 @@ def run_both(cases, tag, timeout=None, per_shard_timeout=120):
     jobs = []
     for k, sh_cases in enumerate(shards):
         for side, binary in (("impl", HARNESS_BIN), ("model", MODEL_BIN)):
+            if side == "model" and not with_model:
+                continue
             p = os.path.join(rd, "shard_%s_%d.txt" % (side, k))
             with open(p, "w") as f:
                 f.write("\n".join(sh_cases) + "\n")
@@ -268,7 +285,7 @@ def run_both(cases, tag, timeout=None, per_shard_timeout=120):
     model = [None] * n
     for k in range(nsh):
         ri = res[("impl", k)]
-        rm = res[("model", k)]
+        rm = res[("model", k)] if with_model else ["-"] * len(ri)
         for j, _ in enumerate(shards[k]):
             idx = j * nsh + k
             impl[idx] = ri[j] if j < len(ri) else "MISSING"
